@@ -302,11 +302,12 @@ void vf_harness(void) {
 ''',
     entry=None, floor=1, expect=['assertion'], timeout=3000,
     replay=replay.from_trace('C19/driver.cpp', ['day', 'sec'], lambda v: ['instant', v['day'], v['sec']]),
-    variants={'d400': ['-DDAY_LO=-400', '-DDAY_HI=400'], 'NEG': ['-DDAY_LO=SPEC_DAY_MIN', '-DDAY_HI=0'], 'POS': ['-DDAY_LO=0', '-DDAY_HI=SPEC_DAY_MAX']},
+    variants={'d400': ['-DDAY_LO=-400', '-DDAY_HI=400'], 'NEG': ['-DDAY_LO=SPEC_DAY_MIN', '-DDAY_HI=0'],
+              'POS1': ['-DDAY_LO=0', '-DDAY_HI=733000'], 'POS2': ['-DDAY_LO=733000', '-DDAY_HI=1466000'], 'POS3': ['-DDAY_LO=1466000', '-DDAY_HI=2199000'], 'POS4': ['-DDAY_LO=2199000', '-DDAY_HI=SPEC_DAY_MAX']},
     variant_kind={'d400': ('bounded', 'days -400..400 around 1970-01-01 (both signs of t), every integer second')},
     desc='weekday computation at the end of Date::calc in floating point as written (bias, t/86400, floor/truncation, % 7 fix-up), every integer second of the day; quick: days -400..400; thorough: every day of years 0001..9999',
     assumes=['hours/minutes/seconds extraction (fract arithmetic) is executed but NOT decided: the same harness with an h/m/s assertion did not finish in 1500 s even for 800 days'],
     functions=['Date::calc (time of day, weekDay)'],
 )
-calc_tail.thorough_variants = ['NEG', 'POS']   # together: every day of years 0001..9999 (about 20 min each)
+calc_tail.thorough_variants = ['NEG', 'POS1', 'POS2', 'POS3', 'POS4']   # together: every day of years 0001..9999 (about 20 min each, run in parallel)
 UNITS += [calc_tail]
